@@ -975,7 +975,7 @@ def run(ctx):
         ctx.cov["obligations"], ctx.cov["discharged"] = 1, 0
     else:
         kit.gen_stage(ctx)
-        ctx.lean_stage(extra_props=("Gen",))
+        ctx.lean_stage(extra_props=("Gen", "Compose"))   # + PrecondVerif.ComposeProps.C02.* (Props/Compose.lean)
         ctx.notes.append("model tie #2: merge_small_dims, BlockPartitioner.__init__, should_precondition_dims, exponent_for_preconditioner, _preconds_for_grad regenerated from the source by harness/py2lean.py on this run; bridge theorems PrecondVerif.GenProps.C02.* (Props/Gen.lean) prove them equal to the Model/Shapes.lean functions Geom is built from")
     const_stage(ctx)
     tasks = gen_tasks(ctx.tier, ctx.seed)
